@@ -835,6 +835,18 @@ func (s *ShapeIndex) applyUpdatesInternal() {
 	// edge as the final index memory size. If this causes issues, add in
 	// batched updating to limit the amount of items per batch to a
 	// configurable memory footprint overhead.
+	if !s.isFirstUpdate() {
+		// Merging new edges into an existing index (absorbIndexCell and the
+		// tracker's saved-state handling) has not been ported yet, and
+		// attempting it re-enters maybeApplyUpdates with the lock held. Until it
+		// is, an update of a non-empty index rebuilds it from all current shapes.
+		// Shapes that were removed are simply not added again.
+		s.cellMap = make(map[CellID]*ShapeIndexCell)
+		s.cells = nil
+		s.pendingAdditionsPos = 0
+		s.pendingRemovals = s.pendingRemovals[:0]
+	}
+
 	t := newTracker()
 
 	// allEdges maps a Face to a collection of faceEdges.
@@ -844,7 +856,9 @@ func (s *ShapeIndex) applyUpdatesInternal() {
 		s.removeShapeInternal(p, allEdges, t)
 	}
 
-	for id := s.pendingAdditionsPos; id < int32(len(s.shapes)); id++ {
+	// Shape ids are never reused, so every id below nextID is a candidate;
+	// addShapeInternal skips the ones that have been removed.
+	for id := s.pendingAdditionsPos; id < s.nextID; id++ {
 		s.addShapeInternal(id, allEdges, t)
 	}
 
@@ -853,7 +867,7 @@ func (s *ShapeIndex) applyUpdatesInternal() {
 	}
 
 	s.pendingRemovals = s.pendingRemovals[:0]
-	s.pendingAdditionsPos = int32(len(s.shapes))
+	s.pendingAdditionsPos = s.nextID
 	// It is the caller's responsibility to update the index status.
 }
 
